@@ -47,7 +47,10 @@ type Case struct {
 	Pair  []int // explicit pattern indices for the first slots (full product for small shapes)
 	Order int   // 0 XDR, 1 NDR
 	Mixed []int // per-element byte order for the decode-side case (nil: not a mixed case)
+	Large int   // > 0: a geometry of the skeleton's kind with this many vertices in its (last) member
 }
+
+var otherGeom = geom.MultiLineString{{{X: 1, Y: 2}, {X: 3, Y: 4}, {X: 5, Y: 6}, {X: 7, Y: 8}}, {{X: 9, Y: 10}}}
 
 func build(c Case) geom.Geom {
 	i := 0
@@ -60,6 +63,26 @@ func build(c Case) geom.Geom {
 		}
 		i++
 		return math.Float64frombits(p)
+	}
+	if c.Large > 0 {
+		pts := make([]geom.Point, c.Large)
+		for k := range pts {
+			pts[k] = geom.Point{X: val(), Y: float64(k)}
+		}
+		switch c.Skel.Kind {
+		case geomgen.KLineString:
+			return geom.LineString(pts)
+		case geomgen.KMultiPoint:
+			return geom.MultiPoint(pts)
+		case geomgen.KPolygon:
+			return geom.Polygon{pts[:3], pts}
+		case geomgen.KMultiLineString:
+			return geom.MultiLineString{pts[:2], pts}
+		case geomgen.KMultiPolygon:
+			return geom.MultiPolygon{{pts[:1]}, {pts, pts[:4]}}
+		default:
+			return geom.GeometryCollection{geom.LineString(pts), geom.GeometryCollection{geom.Polygon{pts}}}
+		}
 	}
 	return geomgen.Build(c.Skel, func() geom.Point { x := val(); y := val(); return geom.Point{X: x, Y: y} })
 }
@@ -125,6 +148,14 @@ func check(c Case) (string, string) {
 	if d := geomgen.Diff(g, got, true); d != "" {
 		return "roundtrip-differs", d
 	}
+	// the bytes returned earlier must survive a later Encode call (history)
+	saved := append([]byte{}, enc...)
+	if _, e2 := wkb.Encode(otherGeom, wkb.XDR); e2 == nil {
+		wkb.Encode(geom.Point{X: 9, Y: 9}, wkb.NDR)
+		if !bytes.Equal(saved, enc) {
+			return "returned-bytes-changed-by-later-Encode", fmt.Sprintf("was %x now %x", saved, enc)
+		}
+	}
 	// stream API: Read must consume exactly the encoding
 	rd := bytes.NewReader(append(append([]byte{}, ref...), 0xAA, 0xBB, 0xCC))
 	if g2, err := wkb.Read(rd); err != nil || geomgen.Diff(g, g2, true) != "" || rd.Len() != 3 {
@@ -176,7 +207,7 @@ func main() {
 		return
 	}
 	r := report.New("C05", tier, "model_checking")
-	r.Rule = "E1: every structure tree of the 7 encodable types (members 0..2(3), ring/line lengths 0..2(3), collections nested to depth 3) x 12 rotations of a list of twelve 64-bit patterns (full 144 product for points) x {XDR,NDR}: Encode bytes == independent OGC serializer, Decode(Encode) bit-identical, stream Read/Write, hex lower/upper; decode side: every assignment of a byte order to every nested element (all 2^n for n<=8 elements, uniform + single/double flips above). Non-trivial = cases with >=2 nested elements or a non-finite / signed-zero / subnormal coordinate."
+	r.Rule = "E1: every structure tree of the 7 encodable types (members 0..2(3), ring/line lengths 0..2(3), collections nested to depth 3) x 12 rotations of a list of twelve 64-bit patterns (full 144 product for points) x {XDR,NDR}: Encode bytes == independent OGC serializer, Decode(Encode) bit-identical, stream Read/Write, hex lower/upper, returned bytes unchanged by later Encode calls; members of 31..5000 vertices (around and beyond the reader's chunk sizes); decode side: every assignment of a byte order to every nested element (all 2^n for n<=8 elements, uniform + single/double flips above). Non-trivial = cases with >=2 nested elements or a non-finite / signed-zero / subnormal coordinate."
 	cfg := geomgen.Config{MaxMembers: 2, Lens: []int{0, 1, 2}, FlatMax: 2, PolyRings: 2, Depth: 3, GCMembers: 2}
 	if tier == "thorough" {
 		cfg = geomgen.Config{MaxMembers: 3, Lens: []int{0, 1, 2, 3}, FlatMax: 3, PolyRings: 2, Depth: 3, GCMembers: 3}
@@ -264,6 +295,22 @@ func main() {
 			}
 		}
 	})
+	// large members: counts around the reader's chunk size and well beyond it
+	for _, kind := range []geomgen.Kind{geomgen.KLineString, geomgen.KMultiPoint, geomgen.KPolygon, geomgen.KMultiLineString, geomgen.KMultiPolygon, geomgen.KCollection} {
+		for _, sz := range []int{31, 32, 33, 255, 256, 257, 300, 511, 512, 513, 700, 1025, 5000} {
+			for order := 0; order < 2; order++ {
+				c := Case{Skel: geomgen.Skel{Kind: kind}, Rot: sz % 12, Order: order, Large: sz}
+				n++
+				nontrivial++
+				if sym, det := check(c); sym != "" {
+					if len(det) > 300 {
+						det = det[:300]
+					}
+					r.Violation(fmt.Sprintf("%s|%s|order=%d|large", sym, kind, order), map[string]interface{}{"case": c, "observed": det})
+				}
+			}
+		}
+	}
 	if r.Expired() {
 		r.Cap("wall budget expired")
 	}
